@@ -1,5 +1,6 @@
 --------------------------- MODULE MC_Determinism ---------------------------
 EXTENDS Determinism, Json
 EmitInv == PrintT(<<"PROJ", ToJson([kinds |-> kinds, style |-> style])>>)
+EmitRec == PrintT(<<"REC", ToJson([shape |-> shape, op |-> style])>>)
 EmitWide == PrintT(<<"WIDE", ToJson([shape |-> shape, width |-> width])>>)
 =============================================================================
